@@ -20,6 +20,16 @@ class), and on a second validator object: each repeat is judged again and must e
 in both orders, as neighbouring string fields and as neighbouring list elements, run under the purely syntactic
 operators only (the inputs on which a REPAIR result has a reference value): where a string literal ends decides which
 text a repair may touch, so a hazard value must be followed by a value that a repair rule would rewrite.
+A third family (schema Ledger) is VALUE PROVENANCE UNDER COERCION: one field per documented coercion (and an
+Optional[int] and a list[int]) holds a boundary literal on which a lossy conversion differs from the exact one - integers
+just above 2**53 and 2**64 (quoted and bare, both signs), fractional / exponent / based / underscored / padded / signed /
+comma-grouped / non-ASCII-digit / empty / trailing-garbage strings, "nan" / "inf" / overflowing and underflowing
+exponents, 400- and 4301-digit strings, floats whose shortest repr needs 17 digits, float32 boundaries, numbers whose
+str() has an exponent, bool words outside the documented lists - crossed with a second field that decides which strategy
+can accept the text (nothing / a number where a string is required / a comma string where a list is required) and, as
+for every family, with all strategy orders and configurations.  Which of these literals may be accepted, and as what, is
+decided by the references alone: pydantic on the parsed JSON, or exactly int(literal) / float(literal) / str(number) /
+the documented bool words.
 The oracle is written from the property statement; the references
 are json.loads and pydantic's model_validate, never the implementation's tables (the repair table is read only to
 NAME the culprit rule of a finding, never to decide one).
@@ -38,7 +48,8 @@ Clauses (each a verdict):
         clauses are asserted for it
   on_misfold: a fold that returns valid must not have reported a misfold; the reported object is an invalid result
   provenance STRICT/EXTRACTION: some JSON value present in the raw text validates to the returned structure
-  provenance LENIENT: the same, modulo the documented type coercions
+  provenance LENIENT: the same, modulo the documented type coercions applied EXACTLY to the literal that is in the text
+        (a finding names the leaves of the structure that are no value-preserving conversion of the leaf in the text)
   provenance REPAIR: when the raw text is a purely syntactic corruption of data D (quotes, commas, literals, keys,
         fences, prose) the structure equals model_validate(D).  Failures are reported under
         `repair-rewrites-string-content:<rule>` (DESIGN 'Reading decision').
@@ -60,7 +71,7 @@ from typing import Optional
 
 from mc import common
 
-from pydantic import BaseModel, ConfigDict, Field, create_model, field_validator
+from pydantic import BaseModel, ConfigDict, Field, TypeAdapter, create_model, field_validator
 
 from operon_ai.organelles.chaperone import Chaperone, FoldingStrategy
 
@@ -151,7 +162,19 @@ class Loose(BaseModel):
     inner: Optional[Inner] = None
 
 
-SCHEMAS = {c.__name__: c for c in (Person, Quote, Tagged, Note, Outer, Post, Memo, Guarded, Tree, Loose)}
+class Ledger(BaseModel):
+    """Coercion-boundary family: one field per documented coercion (number->str, str->int, str->float, str->bool,
+    comma string->list) plus an Optional[int], so that a literal can be put where a lossy conversion differs from the
+    exact one while ANOTHER field decides which strategy can accept the text."""
+    title: str
+    count: int = 1
+    ratio: float = 1.5
+    ok: bool = True
+    limit: Optional[int] = None
+    ids: list[int] = []
+
+
+SCHEMAS = {c.__name__: c for c in (Person, Quote, Tagged, Note, Outer, Post, Memo, Guarded, Tree, Loose, Ledger)}
 # A second class with the same fields per schema: the answer for one schema must never be served for the other.
 TWINS = {n: create_model(n + "Twin", __base__=c) for n, c in SCHEMAS.items()}
 
@@ -174,11 +197,57 @@ HAZ += [ESC[0], ESC[5], ESC[11]]
 HAZ_Q = HAZ[:9] + HAZ[-3:]  # quick tier
 
 
+# Boundary literals of the type coercions: values on which a lossy shortcut (through float, through a digit filter,
+# through another base, truncation, rounding, float32, another number formatter) differs from the exact conversion of the
+# literal that is in the text.  What the fold must return for each is decided by the references only (pydantic on the
+# parsed JSON, or exactly int(literal) / float(literal) / str(number) / the documented bool words) - the lists say
+# nothing about which literals are acceptable.  Quoted literals are strings, bare ones JSON numbers.
+P53 = 2 ** 53 + 1
+INT_LITS_Q = [str(P53), str(-P53), str(2 ** 64 + 1), "42.7", "42.0", "-0.5", "1e3", "007", "+42", " 42 ", "1_000", "1,000",
+              "\u0664\u0662", "nan", "inf", "", "0x1F", "42abc", "9" * 400,
+              P53, -P53, 2 ** 64 + 1, 42.0, 42.7, 1000.0]
+INT_LITS = INT_LITS_Q + [str(2 ** 63), str(-2 ** 63 - 1), "1E3", "42\n", "_1", "1__0", "0b1", "0o7", "-inf", "Infinity", " ",
+                         "-0", "--1", "4 2", "9" * 4301, "42.", ".5", "1e-3", "True", "\uff11\uff12", "12345678901234567890.5",
+                         "+", "4_2.5_0", "1e400", 10 ** 30, -0.0, 1e22]
+FLOAT_LITS_Q = [str(P53), "0.1", "0.30000000000000004", "16777217", "3.4e39", "1e3", "1e400", "1e-400", "nan", "-inf",
+                "Infinity", "NaN", " 4.5 ", "1_0.5", "1,5", "\u0664\u0662", "", "0x10", "12abc", ".5", "9" * 400,
+                P53, 0.1, 0.30000000000000004, 16777217, 1e22, 5e-324]
+FLOAT_LITS = FLOAT_LITS_Q + ["1.0000000000000001", "5.", "4.9e-324", "-0", "+.5e1", "1e", "e3", "9" * 4301, "True", "inf ",
+                             "-Infinity", "-nan", "0.123456789012345678", "\uff11.\uff15", 1.7976931348623157e308, 1e-7, -0.0,
+                             10 ** 30, 2 ** 64 + 1]
+STR_NUMS_Q = [P53, -P53, 10 ** 30, 1e22, 0.1, 1e-7, -0.0, 1.0, 0.30000000000000004, 1e20, True]
+STR_NUMS = STR_NUMS_Q + [5e-324, 1.7976931348623157e308, 123456789.12345678, 2 ** 64 + 1, 0, False, 100000.0, 1e16]
+BOOL_LITS_Q = ["TRUE", "yes", "1", "0", "No", "on", "t", "2", "", "maybe", "false ", "0.0"]
+BOOL_LITS = BOOL_LITS_Q + ["Y", "off", "F", "nope", "1.0", "null", "None", " ", "-1", "truee"]
+# Each forcing value leaves the literal's field alone and decides which strategies can accept the text: with a string
+# title the strict strategy decides under the default order, a numeric title is rejected by every strategy that does not
+# coerce (so the coercing one decides whatever the order), a comma string for the list does the same through another rule.
+FORCING = [{"title": "t"}, {"title": 404}, {"title": "t", "ids": "1, 2"}]
+
+
+def ledger_instances(tier):
+    q = tier == "quick"
+    out = []
+    for field, lits in (("count", INT_LITS_Q if q else INT_LITS), ("ratio", FLOAT_LITS_Q if q else FLOAT_LITS),
+                        ("ok", BOOL_LITS_Q if q else BOOL_LITS)):
+        for lit in lits:
+            for force in (FORCING[:2] if q else FORCING):
+                out.append(dict(force, **{field: lit}))
+    for i, num in enumerate(STR_NUMS_Q if q else STR_NUMS):  # number -> string, next to a string -> number
+        out.append([{"title": num}, {"title": num, "count": str(P53)}, {"title": num, "ratio": "0.1", "ok": "no"}][i % 3])
+    for i, lit in enumerate(INT_LITS_Q[:6] if q else INT_LITS_Q):  # the same literals under Optional[int] and in a list
+        out.append({"title": ("t", 404)[i % 2], "limit": lit})
+        out.append({"title": ("t", 404)[(i + 1) % 2], "ids": [lit, 7]})
+        if isinstance(lit, str) and "," not in lit:
+            out.append({"title": "t", "ids": "1, " + lit})
+    return out
+
+
 def instances(tier):
     hz = HAZ_Q if tier == "quick" else HAZ
     out = {n: [] for n in SCHEMAS}
     for i, h in enumerate(hz):
-        out["Person"].append({"name": h, "age": (3, 0, -1, 41)[i % 4]})
+        out["Person"].append({"name": h, "age": (3, 0, -1, 41, P53)[i % 5]})
         out["Quote"].append({"price": (2.5, 0.0, 1000.0, -0.5, 3)[i % 5], "ok": i % 2 == 0, "label": h})
         out["Outer"].append({"inner": {"a": i % 3, "s": h}, "label": ("top", h)[i % 2]})
         out["Post"].append([{"title": h}, {"title": h, "count": 2}, {"title": h, "count": 0, "flag": True}][i % 3])
@@ -195,6 +264,7 @@ def instances(tier):
     out["Tagged"] += [{"tags": [], "n": 1}, {"tags": ["solo"], "n": 2}]
     out["Note"] += [{"note": None, "k": 1}, {"k": 2}]
     out["Loose"] += [{}]
+    out["Ledger"] = ledger_instances(tier)
     # escape hazard x repair target, in both orders, as neighbouring fields and as neighbouring list elements.  The
     # values alternate (x | y x y | y) so that a target follows one hazard and follows two of them: a boundary error
     # that a second hazard value cancels (quote parity) must not hide behind an even count.
@@ -215,6 +285,7 @@ DECOY = {
     "Guarded": {"id": "decoy", "qty": 99},
     "Tree": {"label": "decoy"},
     "Loose": {"label": "decoy", "n": 99},
+    "Ledger": {"title": "decoy", "count": 99},
 }
 
 # ----------------------------------------------------------------------------------------------
@@ -234,7 +305,10 @@ LAYER_OPS = ("fence_json", "fence_bare", "prose", "xml_tags", "decoy_other", "de
 SYNTACTIC_LAYERS = {"fence_json", "fence_bare", "prose", "xml_tags"}
 # Schemas whose instances are run under the purely syntactic operators only (the inputs for which a REPAIR result has a
 # reference value); the instance alphabet of such a family is a product and is too large for the full operator alphabet.
-SYNTACTIC_ONLY = {"Memo"}
+SYNTACTIC_ONLY = {"Memo", "Ledger"}
+# Families whose dimension is value alphabet x strategy order: one operator less than the bound, so that every input of
+# the family is folded under all orders and all configurations.
+ONE_OPERATOR_LESS = {"Ledger"}
 
 
 def _map_leaves(v, f):
@@ -519,6 +593,68 @@ def ref_coerce(S, d):
     return out
 
 
+def _leaf_from(y, x, coerce):
+    """Is the structure leaf y a value-preserving conversion of the JSON leaf x: the same value, what pydantic makes of x
+    for y's type, or (coerce) exactly int(x) / float(x) / str(x) / a documented bool word."""
+    cands = [x]
+    try:
+        cands.append(_adapter(type(y)).validate_python(x))
+    except Exception:  # noqa: BLE001
+        pass
+    if coerce:
+        try:
+            if isinstance(x, str) and type(y) in (int, float):
+                cands.append(type(y)(x))
+            elif isinstance(x, (int, float)) and type(y) is str:
+                cands.append(str(x))
+            elif isinstance(x, str) and type(y) is bool and x.lower() in _TRUE + _FALSE:
+                cands.append(x.lower() in _TRUE)
+        except (ValueError, OverflowError):
+            pass
+    return any(type(c) is type(y) and (c == y or (c != c and y != y)) for c in cands)
+
+
+_ADAPTERS = {}
+
+
+def _adapter(tp):
+    if tp not in _ADAPTERS:
+        _ADAPTERS[tp] = TypeAdapter(tp)
+    return _ADAPTERS[tp]
+
+
+def untraceable(y, x, coerce, path=""):
+    """NAMING only: the leaves of a dumped structure that are not a value-preserving conversion of the leaf at the same
+    place of the JSON value x (a place that x does not have is a schema default)."""
+    if isinstance(y, dict):
+        if not isinstance(x, dict):
+            return [(path or ".", y, x)]
+        return [u for k, v in y.items() if k in x for u in untraceable(v, x[k], coerce, f"{path}.{k}")]
+    if isinstance(y, list):
+        if coerce and isinstance(x, str):
+            x = [p.strip() for p in x.split(",")]
+        if not isinstance(x, list) or len(x) != len(y):
+            return [(path or ".", y, x)]
+        return [u for i, (v, w) in enumerate(zip(y, x)) for u in untraceable(v, w, coerce, f"{path}[{i}]")]
+    return [] if _leaf_from(y, x, coerce) else [(path or ".", y, x)]
+
+
+def name_leaves(structure, values, coerce):
+    """NAMING only: for the JSON value of the text that explains most of the structure, the leaves it does not explain."""
+    best = None
+    for d in values:
+        for by_alias in (False, True):
+            try:
+                u = untraceable(structure.model_dump(by_alias=by_alias), d, coerce)
+            except Exception:  # noqa: BLE001
+                continue
+            if best is None or len(u) < len(best):
+                best = u
+    if not best:
+        return ""
+    return "; e.g. " + ", ".join(f"{p[1:] or '.'}={y!r:.40} where the text has {x!r:.40}" for p, y, x in best[:3])
+
+
 def culprit_rules(data):
     """NAMING only: the repair rules that, applied on their own to the clean serialisation of the data, change what
     it parses to (in clean JSON every match of these patterns lies inside a string literal)."""
@@ -638,7 +774,8 @@ class Judge:
                     return
             self.bad(f"provenance:{strategy}",
                      f"{tag}: structure {structure!r:.120} is not the validation of any JSON object present in the raw text"
-                     + (" (modulo the documented coercions)" if strategy == "LENIENT" else ""))
+                     + (" (modulo the documented coercions applied exactly)" if strategy == "LENIENT" else "")
+                     + name_leaves(structure, self.values(), strategy == "LENIENT"))
         elif strategy == "REPAIR":
             if not self.syntactic:
                 self.unjudged_repair += 1
@@ -909,8 +1046,8 @@ def run(ctx):
     cfg = dict(TIERS[ctx.tier])
     inst = instances(ctx.tier)
     for attempt in (0, 1):
-        tasks = [(s, d, cfg["maxlen"], cfg["full_len"], p, cfg["parts"]) for s in SCHEMAS for d in inst[s]
-                 for p in range(cfg["parts"])]
+        tasks = [(s, d, cfg["maxlen"] - (s in ONE_OPERATOR_LESS), cfg["full_len"], p, cfg["parts"]) for s in SCHEMAS
+                 for d in inst[s] for p in range(cfg["parts"])]
         tasks += [(s, None, cfg["maxlen"], cfg["full_len"], 0, 1) for s in SCHEMAS]
         order = common.rotate(list(range(len(tasks))), ctx.seed)
         results = dict(zip(order, common.pmap(work, [tasks[i] for i in order])))
@@ -950,9 +1087,11 @@ def run(ctx):
         traces_validated_against_impl=tot["folds"],
         evaluations=tot["folds"],
         distinct_nontrivial=len(distinct_nt),
-        rule="engine D: 10 schemas x instances (hazard-string alphabets; schema Memo: the product escape-hazard string x "
-        "repair-target string in both orders as neighbouring fields and list elements) x every corruption-operator "
-        "sequence up to the length bound (flag/data operators not repeated, at most one truncation; Memo: the 9 purely "
+        rule="engine D: 11 schemas x instances (hazard-string alphabets; schema Memo: the product escape-hazard string x "
+        "repair-target string in both orders as neighbouring fields and list elements; schema Ledger: coercion-boundary "
+        "literals per documented coercion x a second field that forces the coercing strategy, one operator less than the "
+        "bound) x every corruption-operator "
+        "sequence up to the length bound (flag/data operators not repeated, at most one truncation; Memo, Ledger: the 9 purely "
         "syntactic operators only), rendered and de-duplicated per instance; each distinct raw text is folded by fold and fold_enhanced under the default order and all 64 "
         "non-empty ordered strategy subsets, the empty list and 16 orders with a repeated strategy (inputs of the longest "
         "sequence length: default, empty, 4 single strategies, the reversed order and 2 repeated orders, justified by the "
@@ -968,6 +1107,7 @@ def run(ctx):
         instances=sum(len(v) for v in inst.values()),
         escape_hazard_values=len(ESC),
         repair_target_values=len(TGT),
+        coercion_boundary_instances=len(inst["Ledger"]),
         operator_sequences=tot["sequences"],
         orders=len(ALL_ORDERS),
         config_folds=tot["config_folds"],
